@@ -129,3 +129,83 @@ def bookkeeping_fns(f):
                     out.add(d)
         return out
     return _get(f, "bookkeeping_fns", go)
+
+
+def metrics_accessors(f):
+    """Crate-private functions returning (a reference to / an Arc of) the metrics collector."""
+    def go():
+        out = []
+        for d, fn in f.fns.items():
+            if fn.get("has_body") and fn.get("vis") != "Public" and not fn.get("impl_trait"):
+                if any(x.is_adt("metrics::collector::MetricsCollector") for x in f.ty(fn["output"]).walk()):
+                    out.append(d)
+        return out
+    return _get(f, "metrics_accessors", go)
+
+
+def blocking_roles(f):
+    """{'blocking_tell': {'nt': def, 'wt': def}, 'blocking_ask': {...}}: the private primitives behind the public blocking
+    API, found by call structure (the private inherent methods the public function calls directly; the one taking a
+    Duration is the timeout variant). A role that cannot be resolved is absent (callers fail closed)."""
+    def go():
+        out = {}
+        for d, fn in f.fns.items():
+            if fn.get("vis") == "Public" and fn.get("name") in ("blocking_tell", "blocking_ask") and not fn.get("impl_trait") and fn.get("has_body"):
+                cands = []
+                for b in f.family(d):
+                    for blk in b.calls():
+                        c = (blk.term.get("fn") or {}).get("def")
+                        cf = f.fns.get(c)
+                        if cf and cf.get("has_body") and cf.get("vis") != "Public" and not cf.get("impl_trait") and cf.get("impl") == fn.get("impl") and c not in cands:
+                            cands.append(c)
+                r = {}
+                wt = [c for c in cands if any(f.ty(t).is_adt("std::time::Duration") for t in f.fns[c]["inputs"])]
+                nt = [c for c in cands if c not in wt]
+                if len(wt) == 1:
+                    r["wt"] = wt[0]
+                if len(nt) == 1:
+                    r["nt"] = nt[0]
+                out[fn["name"]] = r
+        return out
+    return _get(f, "blocking_roles", go)
+
+
+def keep_defs(f):
+    """Crate-private functions that have a role of their own in the rules and are therefore not inlined into their
+    callers (inline.py): found by what they do, not by name."""
+    from prov import Tracer, strip_wrappers
+    keep = set()
+    for g in (record_def, has_path_def, wait_for_graph_def):
+        d = g(f)
+        if d:
+            keep.add(d)
+    # everything whose signature mentions the wait-for map (the detection bookkeeping: cycle test, accessor, path formatter)
+    keep |= set(wait_map_fns(f))
+    # accessors handing out the metrics collector (observation only; the cross-configuration diff erases them by role)
+    keep |= set(metrics_accessors(f))
+    # the lifecycle: the async fn whose future a public function hands to tokio's spawn
+    for b in f.fn_bodies():
+        for blk in b.calls():
+            fn = blk.term.get("fn") or {}
+            if fn.get("krate") == "tokio" and fn.get("name") == "spawn" and blk.term["args"]:
+                tr = Tracer(b)
+                t = strip_wrappers(tr.norm(tr.call_args(blk.idx)[0]))
+                guard = 0
+                while t[0] == "call" and guard < 6 and t[2] not in f.fns:
+                    a = tr.call_args(t[1])
+                    if not a:
+                        break
+                    t = strip_wrappers(tr.norm(a[0]))       # e.g. Instrument::instrument(fut, span)
+                    guard += 1
+                if t[0] == "call" and t[2] in f.fns and f.fns[t[2]].get("has_body"):
+                    keep.add(t[2])
+    # the blocking primitives: private inherent methods called directly by the public blocking_tell / blocking_ask
+    for d, fn in f.fns.items():
+        if fn.get("vis") == "Public" and fn.get("name") in ("blocking_tell", "blocking_ask") and not fn.get("impl_trait") and fn.get("has_body"):
+            for b in f.family(d):
+                for blk in b.calls():
+                    c = (blk.term.get("fn") or {}).get("def")
+                    cf = f.fns.get(c)
+                    if cf and cf.get("has_body") and cf.get("vis") != "Public" and not cf.get("impl_trait") and cf.get("impl") == fn.get("impl"):
+                        keep.add(c)
+    return keep
